@@ -139,7 +139,7 @@ pub fn liveness_problems(o: &Outcome) -> Vec<(String, String)> {
     let mut v = vec![];
     match &o.verdict {
         Verdict::Deadlock => v.push(("deadlock".to_string(), "logical deadlock: nothing in flight, every result received, done != total — the coordinator can never leave its loop".to_string())),
-        Verdict::HangInDrop => v.push(("deadlock".to_string(), "after an error result the remaining workers block forever inside the result-channel send while the runtime's Drop joins the thread pool: Txtpp::run never returns".to_string())),
+        Verdict::HangInDrop => v.push(("deadlock".to_string(), "Txtpp::run can never return (state unchanged for 10 s, nothing left that could change it): either the remaining workers are blocked inside the result-channel send while the runtime's Drop joins the thread pool (after an error result), or every task has ended and every result was received with done == total and the coordinator still does not leave its loop / finish Drop".to_string())),
         Verdict::Livelock => v.push(("deadlock".to_string(), "the same directory was queued for scanning more than 64 times in one run: the run rescans without end and never returns".to_string())),
         Verdict::StuckTask => v.push(("deadlock".to_string(), "a worker task showed no progress for 20 s (all commands of the workload finish in milliseconds): the worker is blocked, its result never arrives and the coordinator waits forever".to_string())),
         Verdict::MainPanic(m) => v.push(("panic-main".to_string(), format!("the thread calling Txtpp::run panicked: {m}"))),
